@@ -1,5 +1,4 @@
 package vg
 
 func c12System(c *RunCtx) {}
-func c05System(c *RunCtx) {}
 func c17System(c *RunCtx) {}
